@@ -107,26 +107,39 @@ func (c *Ctx) gatedShapeRules(prefix string) {
 			}
 			r.Check(okUncond, rule, "FlushAll:unconditional", p.InstrPos(oc), "every element's gate is opened unconditionally", "the gate is opened only under an extra condition inside the loop")
 		}
-		// no-broker: both containers reset together
-		resets := map[string]ssa.Instruction{}
-		eachInstr(flush, func(in ssa.Instruction) {
-			if st, ok := in.(*ssa.Store); ok && isNilConst(st.Val) {
-				t := tb.Of(st.Addr)
-				if b, ok := t.IsFieldAddr("gated"); ok && b.IsParam("0:w") {
-					resets["gated"] = in
-				}
-				if b, ok := t.IsFieldAddr("orderedGated"); ok && b.IsParam("0:w") {
-					resets["orderedGated"] = in
+		// no-broker: on every path that found no Broker and reports success, both containers were
+		// emptied on that path (directly or in a package-local helper)
+		nNB, okReset := 0, true
+		why := ""
+		for _, pa := range c.enum(rule, flush, PathOpts{Inline: inlineSmall("(*filters/gated.Filter).openGate")}) {
+			rv := pa.RetVals()
+			if rv == nil || !isNilConst(rv[0]) {
+				continue
+			}
+			if pol, found := hasAtom(pa, func(at Atom) bool { return at.Op == "eq" && at.L.Is("Field", "Broker") && at.R.Is("Const", "nil") }); !found || !pol {
+				continue
+			}
+			nNB++
+			got := map[string]bool{}
+			for _, st := range pa.Steps {
+				if sto, ok := st.In.(*ssa.Store); ok && isNilConst(sto.Val) {
+					t := pa.TermsAt(st).Of(sto.Addr)
+					for _, nm := range []string{"gated", "orderedGated"} {
+						if b, ok := t.IsFieldAddr(nm); ok && b.IsParam("0:w") {
+							got[nm] = true
+						}
+					}
 				}
 			}
-		})
-		okReset := len(resets) == 2 && resets["gated"].Block() == resets["orderedGated"].Block()
-		if okReset {
-			cond, tsucc, _ := condOf(resets["gated"].Block().Idom())
-			ct := tb.Of(cond)
-			okReset = cond != nil && tsucc == resets["gated"].Block() && ct.Op == "Bin" && ct.Name == "==" && (ct.Args[0].Is("Field", "Broker") || ct.Args[1].Is("Field", "Broker"))
+			if !got["gated"] || !got["orderedGated"] {
+				okReset = false
+				why = "a successful no-Broker path leaves a container in place: " + p.PathSummary(pa)
+			}
 		}
-		r.Check(okReset, rule, "FlushAll:no-broker", p.Pos(flush.Pos()), "without a Broker both containers are reset together", "the no-Broker branch does not reset both containers together")
+		if nNB == 0 {
+			okReset, why = false, "no successful path of FlushAll establishes Broker == nil"
+		}
+		r.Check(okReset, rule, "FlushAll:no-broker", p.Pos(flush.Pos()), "without a Broker both containers are reset together", "the no-Broker branch does not reset both containers together: "+why)
 		// Close reaches FlushAll unconditionally and returns its result
 		okClose := false
 		for _, ret := range Returns(cls) {
@@ -310,6 +323,8 @@ func runC11(c *Ctx) {
 	}
 	c.gatedContainerRules("C11")
 	c.ruleGatedReset("C11.reset")
+	c.ruleGatedDiscard("C11.discard")
+	c.ruleListOps("C11.listops")
 	c.ruleGatedOrder()
 	c.ruleGatedNoGate("C11.nogate")
 	c.ruleGatedPass("C11.pass")
